@@ -97,12 +97,13 @@ func TestVerifC48(t *testing.T) {
 	}
 	var plans []plan
 	if r.Quick() {
-		plans = []plan{{"base@small", 4}, {"ooo@small", 4}, {"base@medium", 3}, {"v2@medium", 2}, {"st@medium", 2}, {"base@small+dup", 4}, {"base@small+cp", 3}}
+		plans = []plan{{"base@small", 4}, {"ooo@small", 4}, {"base@medium", 3}, {"v2@medium", 2}, {"st@medium", 2}, {"base@small+dup", 4}, {"base@small+cp", 3}, {"base@small+dupspan", 2}, {"base@small+dupspanh", 2}, {"base@small+dupspanfh", 2}}
 	} else {
 		plans = []plan{
 			{"base@small", 6}, {"ooo@small", 5}, {"v2@small", 4}, {"st@small", 4},
 			{"base@medium", 3}, {"ooo@medium", 3}, {"v2@medium", 3}, {"st@medium", 3},
 			{"base@small+dup", 5}, {"base@small+cp", 5}, {"ooo@small+dup", 4}, {"v2@medium+cp", 3}, {"base@medium+dup", 3},
+			{"base@small+dupspan", 4}, {"base@small+dupspanh", 3}, {"base@small+dupspanfh", 3}, {"v2@small+dupspan", 3}, {"base@medium+dupspan", 2},
 			{"inmem@small", 4},
 		}
 	}
